@@ -52,7 +52,8 @@ def cmd_check(args):
             new_violations.append(v)
     replay_paths = []
     for i, v in enumerate(new_violations):
-        path = os.path.join(VERIF, "replays", "%s-%d.json" % (pid, i))
+        path = os.path.join(VERIF, "replays" if REPO == "/repo" else os.path.join("tmp", "replays-scratch"),
+                            "%s-%d.json" % (pid, i))
         os.makedirs(os.path.dirname(path), exist_ok=True)
         with open(path, "w") as f:
             json.dump({"property": pid, "violation": v}, f, indent=1, default=repr)
